@@ -425,12 +425,17 @@ def opPushBytes (m : M) (opn : Nat) : R M := do
 /-- PUSH0 -/
 def opPush0 (m : M) : R M := pushE m m.eval (.int 0)
 
+/-- the length operand of PUSHDATA1 / PUSHDATA2 / PUSHDATA4: `ReadByte` / `ReadUint16` / `ReadUint32` -/
+def readPushLen (m : M) (opn : Nat) : R (Nat × Nat) :=
+  if opn = 0x4C then do
+    let (d, p) ← readByte m.code m.pos
+    pure (d.toNat, p)
+  else if opn = 0x4D then readUintN m.code m.pos 2
+  else readUintN m.code m.pos 4
+
 /-- PUSHDATA1/2/4 -/
 def opPushData (m : M) (opn : Nat) : R M := do
-    let (numBytes, pos) ←
-      if opn = 0x4C then (do let (d, p) ← readByte m.code m.pos; pure (d.toNat, p) : R (Nat × Nat))
-      else if opn = 0x4D then readUintN m.code m.pos 2
-      else readUintN m.code m.pos 4
+    let (numBytes, pos) ← readPushLen m opn
     let (data, pos) ← readBytes m.allowEOF m.code pos numBytes
     let val ← valFromBytes data
     pushE { m with pos := pos } m.eval val
@@ -442,24 +447,33 @@ def opPushN (m : M) (opn : Nat) : R M :=
 /-- NOP -/
 def opNop (m : M) : R M := .ok m
 
+/-- CALL only: `caller := context.Clone(); caller.SetInstructionPointer(ip + 2); PushContext(caller)` -/
+def callPush (m : M) (opn : Nat) : R (List Nat) :=
+  if opn = 0x65 then do
+    let p ← seek (position m.code m.pos)
+    let p ← seek (position m.code p + 2)
+    pushContext m.callers p
+  else pure m.callers
+
+/-- JMPIF / JMPIFNOT: `PopAsBool`; JMP and CALL always jump -/
+def jmpCond (m : M) (opn : Nat) : R (Bool × Stack) :=
+  if opn = 0x63 ∨ opn = 0x64 then do
+    let (v, d) ← popAsBool m.heap m.eval
+    pure (if opn = 0x63 then v else !v, d)
+  else pure (true, m.eval)
+
+/-- `if needJmp { SetInstructionPointer(offset) }` -/
+def seekIf (needJmp : Bool) (offset : Int) (pos : Nat) : R Nat :=
+  if needJmp then seek offset else pure pos
+
 /-- JMP JMPIF JMPIFNOT CALL -/
 def opJmp (m : M) (opn : Nat) : R M := do
-    let callers ←
-      if opn = 0x65 then (do
-        -- caller := context.Clone(); caller.SetInstructionPointer(ip + 2); PushContext(caller)
-        let p ← seek (position m.code m.pos)
-        let p ← seek (position m.code p + 2)
-        pushContext m.callers p : R (List Nat))
-      else pure m.callers
+    let callers ← callPush m opn
     let (num, pos) ← readUintN m.code m.pos 2
     let offset : Int := position m.code pos + toInt16 num - 3
     if offset < 0 ∨ offset > m.code.length then .fault else do
-    let (needJmp, eval) ←
-      if opn = 0x63 ∨ opn = 0x64 then (do
-        let (v, d) ← popAsBool m.heap m.eval
-        pure (if opn = 0x63 then v else !v, d) : R (Bool × Stack))
-      else pure (true, m.eval)
-    let pos ← if needJmp then seek offset else pure pos
+    let (needJmp, eval) ← jmpCond m opn
+    let pos ← seekIf needJmp offset pos
     pure { m with pos := pos, callers := callers, eval := eval }
 
 /-- DCALL -/
@@ -543,9 +557,13 @@ def opPick (m : M) : R M := do
     let v ← vsPeek d n
     pushE m d v
 
+/-- ROT: n = 2; ROLL: `PopAsInt64` -/
+def rollN (m : M) (opn : Nat) : R (Int × Stack) :=
+  if opn = 0x7B then pure ((2 : Int), m.eval) else popAsInt64 m.eval
+
 /-- ROLL, ROT -/
 def opRoll (m : M) (opn : Nat) : R M := do
-    let (n, d) ← if opn = 0x7B then pure ((2 : Int), m.eval) else popAsInt64 m.eval
+    let (n, d) ← rollN m opn
     let (v, d) ← vsRemove d n
     pushE m d v
 
